@@ -852,7 +852,7 @@ def validate_composability(nodes):
     """
     for node in nodes:
         if isinstance(node, Struct):
-            names = [member.name for member in node.members]
+            earlier = {}
             for index, member in enumerate(node.members):
                 where = "'%s' of %s" % (member.name, node.name)
                 if member.optional and member.kind != Kind.FIXED:
@@ -862,9 +862,9 @@ def validate_composability(nodes):
                 if member.is_array and member.kind == Kind.UNLIMITED:
                     raise ModelError("array %s is of unlimited type" % where)
                 if member.bound:
-                    if member.bound not in names[:index]:
+                    if member.bound not in earlier:
                         raise ModelError("sizer of array %s has to be defined before the array" % where)
-                    sizer = node.members[names.index(member.bound)]
+                    sizer = earlier[member.bound]
                     if sizer.optional or sizer.is_array:
                         raise ModelError("sizer of array %s must not be optional nor an array" % where)
                 if member.size and not isinstance(member.numeric_size, six.string_types + (type(None),)):
@@ -872,6 +872,7 @@ def validate_composability(nodes):
                         raise ModelError("size '%s' of array %s is not positive" % (member.size, where))
                 if index != len(node.members) - 1 and (member.greedy or member.kind == Kind.UNLIMITED):
                     raise ModelError("greedy array field %s is not the last field" % where)
+                earlier.setdefault(member.name, member)
         elif isinstance(node, Union):
             for member in node.members:
                 member.calc_wire_stiffness()
